@@ -62,6 +62,8 @@ F_RESERVED = "C12-reserved-names"
 F_PREFIX = "C12-prefix-of-parent-options"
 F_PARENT_DEST = "C12-subcommand-name-is-parent-dest"
 F_PRIVATE_OPT = "C12-private-optional"
+F_ENUM_CLASH = "C12-namespace-member-name-unconverted"
+CLASH = {"items", "keys", "values", "get", "pop", "update", "clone", "as_dict"}
 
 # ---------------------------------------------------------------------------------------------
 # the type grammar: annotation source, and values as (argv text, config value, python source, canonical text)
@@ -80,7 +82,9 @@ TYPE_KEYS = list(TYPES)
 
 # ordinary names: pairwise prefix-free, none a prefix of two options of a parent parser, none equal to a CLI key
 NAMES = ["alpha", "beta", "gamma", "delta", "omega", "kappa", "sigma", "theta", "zeta", "rho", "nu", "xi",
-         "conf", "he", "subcommands", "version", "printer", "cfg"]
+         "conf", "he", "subcommands", "version", "printer", "cfg",
+         # ordinary Python names that coincide with members of jsonargparse's Namespace class (stored under a marked key)
+         "items", "keys", "values", "get", "pop", "update", "clone", "as_dict"]
 PRIVATE = ["_hid", "_aux"]
 METHODS = ["fit", "run", "go", "stop", "evaluate"]
 # the CLI's own vocabulary (fixed-seed sweep only)
@@ -553,13 +557,22 @@ def gen_sig(rng, n, names, extras=True):
     for i in range(n):
         t = rng.choice(TYPE_KEYS)
         has_d = rng.random() < 0.55
+        if t in ("enum", "float") and names[i] in CLASH:
+            t = rng.choice([k for k in TYPE_KEYS if k not in ("enum", "float")])      # open finding C12-namespace-member-name-unconverted
         ps.append({"name": names[i], "kind": "ko" if i >= n - n_ko else "pk", "type": t,
                    "default": rng.randrange(len(TYPES[t][1])) if has_d else None})
     pk = [p for p in ps if p["kind"] == "pk"]
     ko = [p for p in ps if p["kind"] == "ko"]
-    if extras and rng.random() < 0.25:
-        t = rng.choice(["int", "str", "optint"])
-        pk.append({"name": rng.choice(PRIVATE), "kind": "pk", "type": t, "default": rng.randrange(len(TYPES[t][1]))})
+    if extras and rng.random() < 0.3:
+        # a private parameter: with a default it is not offered (the callee gets its own default); without one it is required
+        if rng.random() < 0.4:
+            t = rng.choice(["int", "str", "float"])
+            pk.append({"name": rng.choice(PRIVATE), "kind": rng.choice(["pk", "ko"]), "type": t, "default": None})
+        else:
+            t = rng.choice(["int", "str", "optint"])
+            pk.append({"name": rng.choice(PRIVATE), "kind": "pk", "type": t, "default": rng.randrange(len(TYPES[t][1]))})
+    ko = ko + [p for p in pk if p["kind"] == "ko"]
+    pk = [p for p in pk if p["kind"] == "pk"]
     # python syntax: positional-or-keyword parameters without default come first
     pk = [p for p in pk if p["default"] is None] + [p for p in pk if p["default"] is not None]
     out = pk
@@ -721,6 +734,12 @@ def finding_classes(case):
                 out.add(F_RESERVED)          # construction error, whichever component is selected
     if any(p["name"] == "subcommand" for p in named(top_sig)):
         out.add(F_RESERVED)
+    rel = [(top_sig, case["top"])]
+    if c["kind"] == "cls" and c["methods"] and case.get("method"):
+        rel.append(([x for x in c["methods"] if x["name"] == case["method"]][0]["sig"], case["sub"]))
+    for sig, given in rel:
+        if any(p["name"] in CLASH and p["type"] in ("enum", "float") for p in named(sig)):
+            out.add(F_ENUM_CLASH)
     for p in named(top_sig):
         if p["name"].startswith("_") and p["type"] == "optint" and p["default"] is None:
             out.add(F_PRIVATE_OPT)
@@ -898,7 +917,7 @@ def run_cases(ctx: Ctx, cases, origin, tmp, wide=False):
                               {"kind": "case", "origin": origin, "case": small, "argv": a2, "module": tree_src(small["tree"]), "observed": r2})
         # correspondence (the abbreviation-matching finding is outside the model)
         init_subcommand = sel["kind"] == "cls" and sel["methods"] and any(p["name"] == "subcommand" for p in named(sel["init"]))
-        if model is not None and F_PREFIX not in fc and not init_subcommand:
+        if model is not None and F_PREFIX not in fc and F_ENUM_CLASH not in fc and not init_subcommand:
             d = corr_diff(case, real, model[i])
             if d is not None:
                 n_bad_corr += 1
@@ -1012,7 +1031,7 @@ def run(ctx: Ctx):
         bad = run_cases(ctx, corpus_cases, "corpus", tmp)
 
         # generated trees
-        n_trees = ctx.budget(150, 1800) * (2 if ctx.search_boost > 1 else 1)
+        n_trees = ctx.budget(150, 1500) * (2 if ctx.search_boost > 1 else 1)
         cases = []
         for i in range(n_trees):
             tree = gen_tree(ctx.rng, i)
